@@ -211,7 +211,7 @@ From Util Require Import Keyed.Spec.
 Example c07_example_monitor_silent_on_model_trace :
   let evs := [[1;1;0]; [4;0;0;1]; [14;0;1]; [14;1;1]; [4;0;0;0]; [1;2;1]]%N in
   length (run_obs step_opt (hinit [0;0;0]%N) evs) = 6%nat /\
-  run_check_keyed [0;0;0]%N evs (run_obs step_opt (hinit [0;0;0]%N) evs) = [].
+  run_check_keyed0 [0;0;0]%N evs (run_obs step_opt (hinit [0;0;0]%N) evs) = [].
 Proof. vm_compute. split; reflexivity. Qed.
 Example c07_example_monitor_flags_kept_key :
   let evs := [[1;1;0]; [4;0;0;1]; [14;0;1]; [14;1;1]; [4;0;0;0]; [1;2;1]]%N in
@@ -222,8 +222,8 @@ Example c07_example_monitor_flags_kept_key :
                [0;0; 2;0;1;1;1001; 2; 3;0;1;1;0; 3;1;1001;1;0; 0;0;0];
                [2;0;1;1;1001; 4; 3;0;1;1;1; 3;1;1001;1;1; 1;0;0;0;0; 1;1;0;0;0; 0;0;0]]%N in
   let is7 (c i : nat) (x : issue) := match x with PropFalse 7%nat c' i' => Nat.eqb c c' && Nat.eqb i i' | _ => false end in
-  existsb (is7 6%nat 4%nat) (run_check_keyed [0;0;0]%N evs obss) = true /\
-  existsb (is7 7%nat 5%nat) (run_check_keyed [0;0;0]%N evs obss) = true.
+  existsb (is7 6%nat 4%nat) (run_check_keyed0 [0;0;0]%N evs obss) = true /\
+  existsb (is7 7%nat 5%nat) (run_check_keyed0 [0;0;0]%N evs obss) = true.
 Proof. vm_compute. split; reflexivity. Qed.
 (* a routine started under a root context that is cancelled afterwards records its (error) exit after the container has
    dropped that root (RestartAllRoutines, then ClearContext): the retry timer it arms finds no context and starts
@@ -231,7 +231,7 @@ Proof. vm_compute. split; reflexivity. Qed.
 Example c07_example_monitor_silent_late_exit_after_cancelled_root :
   let evs := [[1;1;0]; [2;0;1]; [14;0;1]; [21;1]; [9;1]; [1;0;1]; [15;0;2]; [16;0]; [17;100]; [18;0]; [19]]%N in
   length (run_obs step_opt (hinit [0;0;1;100]%N) evs) = 11%nat /\
-  run_check_keyed [0;0;1;100]%N evs (run_obs step_opt (hinit [0;0;1;100]%N) evs) = [].
+  run_check_keyed0 [0;0;1;100]%N evs (run_obs step_opt (hinit [0;0;1;100]%N) evs) = [].
 Proof. vm_compute. split; reflexivity. Qed.
 
 (* ------------------------------------------------------------------ *)
@@ -262,7 +262,7 @@ Print Assumptions c07_model_satisfies_monitors.
 (* hence the checker - correspondence and all monitors - reports nothing at all on a history the model accepts completely *)
 Theorem c07_model_run_check_clean : forall cfg evs,
   length (run_obs step_opt (hinit cfg) evs) = length evs ->
-  run_check_keyed cfg evs (run_obs step_opt (hinit cfg) evs) = [].
+  run_check_keyed0 cfg evs (run_obs step_opt (hinit cfg) evs) = [].
 Proof. exact model_run_check_clean. Qed.
 Print Assumptions c07_model_run_check_clean.
 (* an earlier stage of the proof: every clause except 7/5 *)
@@ -275,5 +275,19 @@ Print Assumptions c07_model_satisfies_monitors_clauses_7_1_7_2_7_3_7_4_7_6_7_7.
 Example c07_example_zero_backoff :
   let evs := [[1;1;0]; [2;0;1]; [14;0;1]; [15;0;2]; [16;0]; [18;0]; [14;1;1]]%N in
   length (run_obs step_opt (hinit [0;0;1;0]%N) evs) = 7%nat /\
-  run_check_keyed [0;0;1;0]%N evs (run_obs step_opt (hinit [0;0;1;0]%N) evs) = [].
+  run_check_keyed0 [0;0;1;0]%N evs (run_obs step_opt (hinit [0;0;1;0]%N) evs) = [].
 Proof. vm_compute. split; reflexivity. Qed.
+
+(* ---- the Keyed built with keyed.WithRetry(conf) (configuration hasbo = 2: conf = the backoff package's constant kind):
+   the retry script is computed by the model of the backoff package (Backoff.Model.Construct / bo_script); the expanded
+   configuration is an ordinary scripted one, so every theorem above applies to it. *)
+Theorem c07_real_backoff_config_expands : forall v dl d rest,
+  expand (v :: dl :: 2 :: d :: rest)%N = (v :: dl :: 1 :: repeat (if N.eqb d 0 then 5000 else d) real_script_len)%N.
+Proof. exact expand_real_constant. Qed.
+Print Assumptions c07_real_backoff_config_expands.
+
+Theorem c07_model_run_check_clean_real_backoff : forall cfg evs,
+  length (run_obs step_opt (hinit (expand cfg)) evs) = length evs ->
+  run_check_keyed cfg evs (run_obs step_opt (hinit (expand cfg)) evs) = [].
+Proof. exact model_run_check_clean_expanded. Qed.
+Print Assumptions c07_model_run_check_clean_real_backoff.
